@@ -20,7 +20,7 @@ def atom_name(n, roots):
     return None
 
 
-def extract(n, roots, defs=None, local_atoms=None, depth=0, bool_atoms=None):
+def extract(n, roots, defs=None, local_atoms=None, depth=0, bool_atoms=None, atom_fn=None):
     """returns formula: ('and',a,b) ('or',a,b) ('not',a) ('atom',name) ('const',b). Raises Opaque.
     roots: {local id: alias} whose fields are atoms; local_atoms: {local id: atom name} for integer locals
     compared against 0 (e.g. a step variable); defs: local_defs for following let-bound bool locals."""
@@ -28,7 +28,11 @@ def extract(n, roots, defs=None, local_atoms=None, depth=0, bool_atoms=None):
     if depth > 20:
         raise Opaque(n, "too deep")
     k = n.get("k")
-    rec = lambda x: extract(x, roots, defs, local_atoms, depth + 1, bool_atoms)
+    rec = lambda x: extract(x, roots, defs, local_atoms, depth + 1, bool_atoms, atom_fn)
+    if atom_fn is not None:
+        a_ = atom_fn(n)
+        if a_ is not None:
+            return ("atom", a_)
     ite = lambda c, a, b: ("or", ("and", c, a), ("and", ("not", c), b))
     if k in ("blockexpr", "block"):
         # a block with early returns: `if c { return a; } rest`  ==  if c {a} else {rest}
@@ -58,10 +62,10 @@ def extract(n, roots, defs=None, local_atoms=None, depth=0, bool_atoms=None):
     if k == "lit" and isinstance(n.get("v"), bool):
         return ("const", n["v"])
     if k == "unary" and n["op"] == "!":
-        return ("not", extract(n["e"], roots, defs, local_atoms, depth + 1, bool_atoms))
+        return ("not", rec(n["e"]))
     if k == "binary" and n["op"] in ("&&", "||"):
-        a = extract(n["l"], roots, defs, local_atoms, depth + 1, bool_atoms)
-        b = extract(n["r"], roots, defs, local_atoms, depth + 1, bool_atoms)
+        a = rec(n["l"])
+        b = rec(n["r"])
         return ("and" if n["op"] == "&&" else "or", a, b)
     if k == "binary" and n["op"] in ("==", "!=", ">", ">=", "<", "<="):
         l, r = peel(n["l"]), peel(n["r"])
@@ -92,7 +96,7 @@ def extract(n, roots, defs=None, local_atoms=None, depth=0, bool_atoms=None):
     if k == "local" and (n.get("ty") or "") == "bool" and defs is not None:
         init = simple_let_init(defs, n["id"])
         if init is not None:
-            return extract(init, roots, defs, local_atoms, depth + 1, bool_atoms)
+            return rec(init)
         raise Opaque(n, "bool local without a simple definition")
     if k == "mcall" and n["name"] in ("is_used",):
         raise Opaque(n, "method call")
